@@ -339,6 +339,35 @@ func Combs() []Comb {
 			S: func(s []*Src, p Params) outS { return scalarsS(stream.Join(srcsS(s)...)) },
 			L: func(in [][]int, p Params) [][]int { return singles(xslices.Join(in...)) },
 		},
+		{Name: "JoinNested", Multi: true, // joins built from sub-slices of one argument slice with spare capacity, then joined again:
+			// a Join must not write into (or keep aliasing in a harmful way) the slice it was called with
+			I: func(s []*Src, p Params) outI {
+				if len(s) < 3 {
+					return scalarsI(iterator.Join(srcsI(s)...))
+				}
+				all := srcsI(s)
+				its := make([]iterator.Iterator[int], 2, len(s)+2)
+				its[0], its[1] = all[0], all[2]
+				head := iterator.Join(its[:1]...)
+				head = iterator.Join(head, all[1])
+				tail := iterator.Join(its[1:2]...)
+				rest := append([]iterator.Iterator[int]{head, tail}, all[3:]...)
+				return scalarsI(iterator.Join(rest...))
+			},
+			S: func(s []*Src, p Params) outS {
+				if len(s) < 3 {
+					return scalarsS(stream.Join(srcsS(s)...))
+				}
+				all := srcsS(s)
+				sts := make([]stream.Stream[int], 2, len(s)+2)
+				sts[0], sts[1] = all[0], all[2]
+				head := stream.Join(sts[:1]...)
+				head = stream.Join(head, all[1])
+				tail := stream.Join(sts[1:2]...)
+				rest := append([]stream.Stream[int]{head, tail}, all[3:]...)
+				return scalarsS(stream.Join(rest...))
+			},
+		},
 		{Name: "Map", HasCb: true,
 			I: func(s []*Src, p Params) outI {
 				return scalarsI(iterator.Map(s[0].Iter(), func(x int) int { return x + 10 }))
